@@ -342,7 +342,133 @@ func runC09(r *Run) {
 	checkPeriodsValidated(r, "R8")
 	r.Rule("R9", "PATH.merge-reads-the-old-schedule: in addGrant no store into the account's StartTime, EndTime, LockupPeriods or VestingPeriods can precede a DisjunctPeriods call — both merges (lock-up and vesting) read the account's start and periods as they were before the grant; a merge that runs after the first write-back re-bases the existing events on the new start (every old vesting event moves earlier when the grant is back-dated)")
 	checkMergeBeforeUpdate(r, "R9")
+	r.Rule("R10", "FLOW.both-branches-see-the-same-schedules (sibling agreement): CreateClawbackVestingAccount defaults an absent lock-up or vesting schedule to an instant one; the schedule it then hands to addGrant (merge into an existing account) and the one it hands to NewClawbackVestingAccount (new account) come from the same source — the same message field (read directly or through its getter) or the same local value — so a grant with one schedule absent is merged with the same defaulted schedule a new account would get")
+	checkGrantBranchesAgree(r, "R10")
+	r.Rule("R11", "PATH.schedule-clock-advances-every-period: in ReadSchedule and ReadPastPeriodCount the running time that a period's end is computed from is advanced by that period's Length on every pass through the loop — each back edge carries clock + Length; a `continue` that skips the addition reads every later release event earlier by the skipped period's length")
+	checkClockAdvances(r, "R11")
 	_ = fmt.Sprint
+}
+
+func checkGrantBranchesAgree(r *Run, rule string) {
+	P := r.P
+	fn, ok := P.FnOK("(x/vesting/keeper.Keeper).CreateClawbackVestingAccount")
+	if !ok {
+		r.Bad(rule, "anchor/CreateClawbackVestingAccount", "", "not found")
+		return
+	}
+	var msgParam *ssa.Parameter
+	for _, p := range fn.Params {
+		if namedName(deref(p.Type())) == "MsgCreateClawbackVestingAccount" {
+			msgParam = p
+		}
+	}
+	source := func(v ssa.Value) string {
+		v = stripValue(v)
+		if u, ok := v.(*ssa.UnOp); ok && u.Op == token.MUL {
+			if fa, ok := u.X.(*ssa.FieldAddr); ok && stripValue(fa.X) == ssa.Value(msgParam) {
+				_, f, _ := fieldOfAddr(fa)
+				return "msg." + f
+			}
+		}
+		if c, ok := v.(*ssa.Call); ok {
+			ci := callInfo(c)
+			if strings.HasPrefix(ci.Name, "Get") && len(c.Call.Args) == 1 && stripValue(c.Call.Args[0]) == ssa.Value(msgParam) {
+				return "msg." + strings.TrimPrefix(ci.Name, "Get")
+			}
+		}
+		return fmt.Sprintf("value %s@%s", v.Name(), P.Pos(v.Pos()))
+	}
+	var grant, fresh ssa.CallInstruction
+	eachCall(fn, func(ci CallInfo) {
+		switch ci.Name {
+		case "addGrant":
+			grant = ci.Instr
+		case "NewClawbackVestingAccount":
+			fresh = ci.Instr
+		}
+	})
+	if grant == nil || fresh == nil || msgParam == nil {
+		r.Bad(rule, fnID(fn)+"#branches-agree", P.Pos(fnPos(fn)), "CreateClawbackVestingAccount no longer has both an addGrant and a NewClawbackVestingAccount branch fed from its message")
+		return
+	}
+	pick := func(c ssa.CallInstruction, name string) ssa.Value {
+		sig := c.Common().Signature()
+		off := 0
+		if !c.Common().IsInvoke() && sig.Recv() != nil {
+			off = 1
+		}
+		for i := 0; i < sig.Params().Len(); i++ {
+			if strings.EqualFold(sig.Params().At(i).Name(), name) {
+				return c.Common().Args[i+off]
+			}
+		}
+		return nil
+	}
+	for _, pr := range [][2]string{{"grantLockupPeriods", "lockupPeriods"}, {"grantVestingPeriods", "vestingPeriods"}} {
+		g, f := pick(grant, pr[0]), pick(fresh, pr[1])
+		if g == nil || f == nil {
+			r.Bad(rule, fnID(fn)+"#branches-agree/"+pr[1], P.Pos(fnPos(fn)), "parameter "+pr[0]+" / "+pr[1]+" not found in addGrant / NewClawbackVestingAccount")
+			continue
+		}
+		sg, sf := source(g), source(f)
+		r.Check(sg == sf, rule, fnID(fn)+"#branches-agree/"+pr[1], P.Pos(instrPos(grant)), "addGrant and NewClawbackVestingAccount both receive "+sg,
+			fmt.Sprintf("the merge branch hands addGrant %s while the new-account branch hands NewClawbackVestingAccount %s: the defaulting of an absent schedule reaches only one of them — a merged grant with one schedule absent grows OriginalVesting without extending that schedule (reads as locked / unvested until the account's end)", sg, sf))
+	}
+}
+
+func checkClockAdvances(r *Run, rule string) {
+	P := r.P
+	n := 0
+	for _, id := range []string{"x/vesting/types.ReadSchedule", "x/vesting/types.ReadPastPeriodCount"} {
+		fn, ok := P.FnOK(id)
+		if !ok {
+			r.Bad(rule, "anchor/"+id, "", "not found")
+			continue
+		}
+		for _, h := range fn.Blocks {
+			if !isLoopHeader(h) {
+				continue
+			}
+			body := loopBody(h)
+			for _, in := range h.Instrs {
+				ph, ok := in.(*ssa.Phi)
+				if !ok {
+					continue
+				}
+				isAdvance := func(v ssa.Value) bool {
+					b, ok := stripValue(v).(*ssa.BinOp)
+					if !ok || b.Op != token.ADD {
+						return false
+					}
+					if stripValue(b.X) == ssa.Value(ph) {
+						return backSlice(b.Y).HasField("Period", "Length")
+					}
+					if stripValue(b.Y) == ssa.Value(ph) {
+						return backSlice(b.X).HasField("Period", "Length")
+					}
+					return false
+				}
+				clock, all := false, true
+				for i, e := range ph.Edges {
+					if !body[h.Preds[i]] {
+						continue
+					}
+					if isAdvance(e) {
+						clock = true
+					} else {
+						all = false
+					}
+				}
+				if !clock {
+					continue
+				}
+				n++
+				r.Check(all, rule, fmt.Sprintf("%s#clock-advances@%s", fnID(fn), h.Comment), P.Pos(instrPos(h.Instrs[0])), "every back edge carries clock + period.Length",
+					"an iteration can reach the next one without adding the period's Length to the running time (a skipped or filtered period): every later period's end is then computed too early, so coins vest or unlock before their time")
+			}
+		}
+	}
+	r.Floor(rule, "schedule-reading loops with a running clock", n, 2)
 }
 
 // valueBranches: v (a bool) decides a branch, directly or through negation / boolean combination.
